@@ -51,6 +51,68 @@ Proof.
     cbn [fst] in *. constructor; [left; reflexivity|exact IH].
 Qed.
 
+(* ---- the exception path -------------------------------------------------- *)
+Lemma soe_loop_x_no_throw : forall throws errf step l skip st,
+  (forall e, In e l -> throws e = false) ->
+  soe_loop_x throws errf step skip l st =
+  (fst (soe_loop errf step skip l st), Some (snd (soe_loop errf step skip l st))).
+Proof.
+  intros throws errf step l. induction l as [|e r IH]; intros skip st H; [reflexivity|].
+  cbn [soe_loop_x soe_loop]. destruct skip as [|k].
+  - destruct (Nat.leb step (length (e :: r))); [|reflexivity].
+    rewrite (H e (or_introl eq_refl)). destruct (soe_visit errf e st) as [e' st1].
+    rewrite (IH (Nat.pred step) st1 (fun x Hx => H x (or_intror Hx))).
+    destruct (soe_loop errf step (Nat.pred step) r st1) as [r' st']. reflexivity.
+  - rewrite (IH k st (fun x Hx => H x (or_intror Hx))).
+    destruct (soe_loop errf step k r st) as [r' st']. reflexivity.
+Qed.
+
+Lemma soe_loop_x_frame : forall throws errf step l skip st,
+  Forall2 (fun e e' => e' = e \/ (soe_wrong errf e = true /\ e' = bump e)) l (fst (soe_loop_x throws errf step skip l st)).
+Proof.
+  intros throws errf step l. induction l as [|e r IH]; intros skip st; [constructor|].
+  assert (Same : forall l0 : list example, Forall2 (fun e e' => e' = e \/ (soe_wrong errf e = true /\ e' = bump e)) l0 l0).
+  { intro l0. induction l0 as [|x xs IHx]; constructor; [left; reflexivity|exact IHx]. }
+  cbn [soe_loop_x]. destruct skip as [|k].
+  - destruct (Nat.leb step (length (e :: r))); [|apply Same].
+    destruct (throws e); [apply Same|]. unfold soe_visit.
+    specialize (IH (Nat.pred step) (soe_update st (errf e))).
+    destruct (soe_loop_x throws errf step (Nat.pred step) r (soe_update st (errf e))) as [r' st'].
+    cbn [fst] in *. constructor; [|exact IH].
+    unfold soe_wrong. destruct (negb (issmall (errf e))); [right; split; reflexivity|left; reflexivity].
+  - specialize (IH k st). destruct (soe_loop_x throws errf step k r st) as [r' st'].
+    cbn [fst] in *. constructor; [left; reflexivity|exact IH].
+Qed.
+
+Lemma soe_loop_x_throw_witness : forall throws errf step l skip st,
+  snd (soe_loop_x throws errf step skip l st) = None -> exists e, In e l /\ throws e = true.
+Proof.
+  intros throws errf step l. induction l as [|e r IH]; intros skip st H; [discriminate H|].
+  cbn [soe_loop_x] in H. destruct skip as [|k].
+  - destruct (Nat.leb step (length (e :: r))); [|discriminate H].
+    destruct (throws e) eqn:T; [exists e; split; [left; reflexivity|exact T]|].
+    destruct (soe_visit errf e st) as [e' st1].
+    destruct (soe_loop_x throws errf step (Nat.pred step) r st1) as [r' st'] eqn:E. cbn [snd] in H.
+    destruct (IH (Nat.pred step) st1 ltac:(rewrite E; exact H)) as (x & Hx & Tx). exists x. split; [right; exact Hx|exact Tx].
+  - destruct (soe_loop_x throws errf step k r st) as [r' st'] eqn:E. cbn [snd] in H.
+    destruct (IH k st ltac:(rewrite E; exact H)) as (x & Hx & Tx). exists x. split; [right; exact Hx|exact Tx].
+Qed.
+
+(* operator() (every example visited): the exact state left behind, and the
+   evaluation throws exactly when some example makes the functor throw *)
+Lemma soe_loop_x_step1 : forall throws errf l st,
+  fst (soe_loop_x throws errf 1 0 l st) = frame_x throws (soe_wrong errf) l /\
+  (snd (soe_loop_x throws errf 1 0 l st) = None <-> existsb throws l = true).
+Proof.
+  intros throws errf l. induction l as [|e r IH]; intro st.
+  - cbn. split; [reflexivity|split; discriminate].
+  - cbn [soe_loop_x frame_x existsb length Nat.leb Nat.pred]. destruct (throws e) eqn:T.
+    + cbn. split; [reflexivity|split; reflexivity].
+    + unfold soe_visit. destruct (IH (soe_update st (errf e))) as [I1 I2].
+      destruct (soe_loop_x throws errf 1 0 r (soe_update st (errf e))) as [r' st']. cbn [fst snd orb] in *.
+      split; [unfold soe_wrong at 1; rewrite I1; reflexivity|exact I2].
+Qed.
+
 Lemma bump_fields : forall e, ex_in (bump e) = ex_in e /\ ex_out (bump e) = ex_out e /\ ex_age (bump e) = ex_age e
   /\ ex_diff (bump e) = N.modulo (ex_diff e + 1) two64.
 Proof. intro e. repeat split. Qed.
